@@ -1,6 +1,633 @@
-use crate::env::Out;
-use simcore::{Counters, Step};
-pub fn model_apply(_s: &Step) -> Out { Out::Skip }
-pub fn real_apply(_s: &Step) -> Out { Out::Skip }
-pub fn expand(_s: &Step, _c: &mut Counters) -> Vec<Step> { Vec::new() }
-pub fn ty_name(_t: u8) -> &'static str { "?" }
+//! `disk` family: serialised forms on simulated storage. Fault enumeration on the stored stream
+//! (SimDisk) and a fault-injecting serde Deserializer (SimFormat).
+
+use crate::env::{Obs, Out};
+use curve25519_dalek::edwards::{CompressedEdwardsY, EdwardsPoint};
+use curve25519_dalek::montgomery::MontgomeryPoint;
+use curve25519_dalek::ristretto::{CompressedRistretto, RistrettoPoint};
+use curve25519_dalek::scalar::Scalar;
+use ed25519_dalek::{Signature, SigningKey, VerifyingKey};
+use refmodel::ed::Pt;
+use serde::de::{self, DeserializeSeed, SeqAccess, Visitor};
+use serde::Deserialize;
+use simcore::{bump, Counters, Step, B};
+
+pub const NTYPES: u8 = 11;
+
+pub fn ty_name(t: u8) -> &'static str {
+    match t {
+        0 => "Scalar",
+        1 => "EdwardsPoint",
+        2 => "CompressedEdwardsY",
+        3 => "RistrettoPoint",
+        4 => "CompressedRistretto",
+        5 => "MontgomeryPoint",
+        6 => "SigningKey",
+        7 => "VerifyingKey",
+        8 => "Signature",
+        9 => "x25519::PublicKey",
+        10 => "x25519::StaticSecret",
+        _ => "?",
+    }
+}
+
+pub fn payload_len(ty: u8) -> usize {
+    if ty == 8 {
+        64
+    } else {
+        32
+    }
+}
+
+/// does the type serialise through serialize_bytes (length-prefixed in bincode)?
+fn is_bytes_type(ty: u8) -> bool {
+    matches!(ty, 6 | 7)
+}
+
+// ------------------------------------------------------------------ model side (no /repo code)
+
+/// what the native decoder must make of a payload: Some(canonical bytes of the value) or None
+pub fn native_model(ty: u8, p: &[u8]) -> Option<Vec<u8>> {
+    if p.len() != payload_len(ty) {
+        return None;
+    }
+    match ty {
+        0 => {
+            if refmodel::Sc::is_canonical_bytes(&refmodel::arr32(p)) {
+                Some(p.to_vec())
+            } else {
+                None
+            }
+        }
+        1 => Pt::decode(&refmodel::arr32(p)).map(|q| q.encode().to_vec()),
+        3 => refmodel::ristretto::decode(&refmodel::arr32(p)).map(|_| p.to_vec()),
+        7 => Pt::decode(&refmodel::arr32(p)).map(|_| p.to_vec()),
+        _ => Some(p.to_vec()),
+    }
+}
+
+/// the canonical stream of a value whose canonical bytes are v
+pub fn canonical_stream(ty: u8, v: &[u8], fmt: u8) -> Vec<u8> {
+    if fmt == 0 {
+        let mut s = Vec::new();
+        if is_bytes_type(ty) {
+            s.extend_from_slice(&(v.len() as u64).to_le_bytes());
+        }
+        s.extend_from_slice(v);
+        s
+    } else {
+        let items: Vec<String> = v.iter().map(|b| b.to_string()).collect();
+        format!("[{}]", items.join(",")).into_bytes()
+    }
+}
+
+/// The trusted format parsers used as byte extractors: what plain bytes does this stream carry?
+fn plain_load(ty: u8, fmt: u8, stream: &[u8]) -> Option<Vec<u8>> {
+    if is_bytes_type(ty) {
+        let v: Option<PlainBytes> = if fmt == 0 { bincode_strict(stream) } else { serde_json::from_slice(stream).ok() };
+        v.map(|p| p.0)
+    } else if ty == 8 {
+        let v: Option<Plain64> = if fmt == 0 { bincode_strict(stream) } else { serde_json::from_slice(stream).ok() };
+        v.map(|p| p.0.to_vec())
+    } else {
+        let v: Option<[u8; 32]> = if fmt == 0 { bincode_strict(stream) } else { serde_json::from_slice(stream).ok() };
+        v.map(|p| p.to_vec())
+    }
+}
+
+fn bincode_strict<'a, T: Deserialize<'a>>(stream: &'a [u8]) -> Option<T> {
+    use bincode::Options;
+    bincode::options().with_fixint_encoding().reject_trailing_bytes().with_limit(1 << 16).deserialize(stream).ok()
+}
+
+/// what a `deserialize_bytes` consumer is handed: a byte string, or a sequence of u8 read strictly to its end
+struct PlainBytes(Vec<u8>);
+impl<'de> Deserialize<'de> for PlainBytes {
+    fn deserialize<D: de::Deserializer<'de>>(d: D) -> Result<Self, D::Error> {
+        struct V;
+        impl<'de> Visitor<'de> for V {
+            type Value = PlainBytes;
+            fn expecting(&self, f: &mut std::fmt::Formatter<'_>) -> std::fmt::Result {
+                f.write_str("bytes")
+            }
+            fn visit_bytes<E: de::Error>(self, b: &[u8]) -> Result<PlainBytes, E> {
+                Ok(PlainBytes(b.to_vec()))
+            }
+            fn visit_seq<A: SeqAccess<'de>>(self, mut seq: A) -> Result<PlainBytes, A::Error> {
+                let mut v = Vec::new();
+                while let Some(b) = seq.next_element::<u8>()? {
+                    v.push(b);
+                    if v.len() > 4096 {
+                        return Err(de::Error::custom("too long"));
+                    }
+                }
+                Ok(PlainBytes(v))
+            }
+        }
+        d.deserialize_bytes(V)
+    }
+}
+
+struct Plain64([u8; 64]);
+impl<'de> Deserialize<'de> for Plain64 {
+    fn deserialize<D: de::Deserializer<'de>>(d: D) -> Result<Self, D::Error> {
+        struct V;
+        impl<'de> Visitor<'de> for V {
+            type Value = Plain64;
+            fn expecting(&self, f: &mut std::fmt::Formatter<'_>) -> std::fmt::Result {
+                f.write_str("64 bytes")
+            }
+            fn visit_seq<A: SeqAccess<'de>>(self, mut seq: A) -> Result<Plain64, A::Error> {
+                let mut a = [0u8; 64];
+                for (i, b) in a.iter_mut().enumerate() {
+                    *b = seq.next_element()?.ok_or_else(|| de::Error::invalid_length(i, &self))?;
+                }
+                Ok(Plain64(a))
+            }
+        }
+        d.deserialize_tuple(64, V)
+    }
+}
+
+pub fn model_apply(st: &Step) -> Out {
+    let mut o = Obs::new();
+    match st {
+        Step::Store { ty, v, fmt } => {
+            if native_model(*ty, &v.0).map(|c| c != v.0).unwrap_or(true) {
+                return Out::Skip; // not the canonical bytes of a valid value
+            }
+            o.b("stream", &canonical_stream(*ty, &v.0, *fmt));
+        }
+        Step::Load { ty, fmt, stream } => {
+            let expect = plain_load(*ty, *fmt, &stream.0).and_then(|p| native_model(*ty, &p));
+            o.f("ok", expect.is_some());
+            o.b("val", &expect.unwrap_or_default());
+        }
+        Step::SimFmt { ty, v, shape, len, extra, err_at, tk: _ } => {
+            let n = (*len as usize).min(v.0.len());
+            let delivered = &v.0[..n];
+            let want = payload_len(*ty);
+            let bytes_ty = is_bytes_type(*ty);
+            let err = *err_at as usize;
+            if *shape == 0 {
+                // a sequence: `n` elements of the value, then `extra` trailing ones; an injected error at index err
+                let total = n + *extra as usize;
+                if err < want.min(total) || n < want {
+                    o.f("ok", false);
+                    o.b("val", &[]);
+                } else if total > want {
+                    // over-long input must be rejected (by the type or by the format's end check)
+                    o.f("ok", false);
+                    o.b("val", &[]);
+                } else if err == want && bytes_ty {
+                    // exactly enough elements, then an error where the end of the sequence should be:
+                    // failing is right, succeeding is tolerable (nothing wrong was returned)
+                    o.any("ok");
+                    o.any("val");
+                    return Out::Obs(o);
+                } else {
+                    let e = native_model(*ty, delivered);
+                    o.f("ok", e.is_some());
+                    o.b("val", &e.unwrap_or_default());
+                }
+            } else if bytes_ty {
+                let e = if err == 0 { None } else { native_model(*ty, delivered) };
+                o.f("ok", e.is_some());
+                o.b("val", &e.unwrap_or_default());
+            } else {
+                // tuple-shaped types are not fed from byte strings
+                o.f("ok", false);
+                o.b("val", &[]);
+            }
+        }
+        _ => return Out::Skip,
+    }
+    Out::Obs(o)
+}
+
+// ------------------------------------------------------------------ real side
+
+enum Val {
+    Scalar(Scalar),
+    Ed(EdwardsPoint),
+    CEd(CompressedEdwardsY),
+    Ris(RistrettoPoint),
+    CRis(CompressedRistretto),
+    Mont(MontgomeryPoint),
+    Sk(SigningKey),
+    Vk(VerifyingKey),
+    Sig(Signature),
+    XPub(x25519_dalek::PublicKey),
+    XSec(x25519_dalek::StaticSecret),
+}
+
+impl Val {
+    fn canon(&self) -> Vec<u8> {
+        match self {
+            Val::Scalar(s) => s.to_bytes().to_vec(),
+            Val::Ed(p) => p.compress().to_bytes().to_vec(),
+            Val::CEd(c) => c.to_bytes().to_vec(),
+            Val::Ris(p) => p.compress().to_bytes().to_vec(),
+            Val::CRis(c) => c.to_bytes().to_vec(),
+            Val::Mont(m) => m.to_bytes().to_vec(),
+            Val::Sk(k) => k.to_bytes().to_vec(),
+            Val::Vk(k) => k.to_bytes().to_vec(),
+            Val::Sig(s) => s.to_bytes().to_vec(),
+            Val::XPub(p) => p.to_bytes().to_vec(),
+            Val::XSec(s) => s.to_bytes().to_vec(),
+        }
+    }
+}
+
+fn build(ty: u8, v: &B) -> Option<Val> {
+    Some(match ty {
+        0 => Val::Scalar(Option::from(Scalar::from_canonical_bytes(v.a32()))?),
+        1 => Val::Ed(CompressedEdwardsY(v.a32()).decompress()?),
+        2 => Val::CEd(CompressedEdwardsY(v.a32())),
+        3 => Val::Ris(CompressedRistretto(v.a32()).decompress()?),
+        4 => Val::CRis(CompressedRistretto(v.a32())),
+        5 => Val::Mont(MontgomeryPoint(v.a32())),
+        6 => Val::Sk(SigningKey::from_bytes(&v.a32())),
+        7 => Val::Vk(VerifyingKey::from_bytes(&v.a32()).ok()?),
+        8 => Val::Sig(Signature::from_bytes(&v.a64())),
+        9 => Val::XPub(x25519_dalek::PublicKey::from(v.a32())),
+        _ => Val::XSec(x25519_dalek::StaticSecret::from(v.a32())),
+    })
+}
+
+fn ser<T: serde::Serialize>(x: &T, fmt: u8) -> Option<Vec<u8>> {
+    if fmt == 0 {
+        bincode::serialize(x).ok()
+    } else {
+        serde_json::to_vec(x).ok()
+    }
+}
+
+fn store(val: &Val, fmt: u8) -> Option<Vec<u8>> {
+    match val {
+        Val::Scalar(x) => ser(x, fmt),
+        Val::Ed(x) => ser(x, fmt),
+        Val::CEd(x) => ser(x, fmt),
+        Val::Ris(x) => ser(x, fmt),
+        Val::CRis(x) => ser(x, fmt),
+        Val::Mont(x) => ser(x, fmt),
+        Val::Sk(x) => ser(x, fmt),
+        Val::Vk(x) => ser(x, fmt),
+        Val::Sig(x) => ser(x, fmt),
+        Val::XPub(x) => ser(x, fmt),
+        Val::XSec(x) => ser(x, fmt),
+    }
+}
+
+/// typed load through the library's Deserialize impl from any serde Deserializer
+fn typed<'de, D: de::Deserializer<'de>>(ty: u8, d: D) -> Result<Val, D::Error> {
+    Ok(match ty {
+        0 => Val::Scalar(Scalar::deserialize(d)?),
+        1 => Val::Ed(EdwardsPoint::deserialize(d)?),
+        2 => Val::CEd(CompressedEdwardsY::deserialize(d)?),
+        3 => Val::Ris(RistrettoPoint::deserialize(d)?),
+        4 => Val::CRis(CompressedRistretto::deserialize(d)?),
+        5 => Val::Mont(MontgomeryPoint::deserialize(d)?),
+        6 => Val::Sk(SigningKey::deserialize(d)?),
+        7 => Val::Vk(VerifyingKey::deserialize(d)?),
+        8 => Val::Sig(Signature::deserialize(d)?),
+        9 => Val::XPub(x25519_dalek::PublicKey::deserialize(d)?),
+        _ => Val::XSec(x25519_dalek::StaticSecret::deserialize(d)?),
+    })
+}
+
+fn typed_load(ty: u8, fmt: u8, stream: &[u8]) -> Option<Val> {
+    if fmt == 0 {
+        use bincode::Options;
+        let opts = bincode::options().with_fixint_encoding().reject_trailing_bytes().with_limit(1 << 16);
+        let mut d = bincode::Deserializer::from_slice(stream, opts);
+        let v = typed(ty, &mut d).ok()?;
+        // reject_trailing_bytes is enforced by Options::deserialize, not by a bare Deserializer: check here
+        if plain_consumed_all_bincode(ty, stream) {
+            Some(v)
+        } else {
+            None
+        }
+    } else {
+        let mut d = serde_json::Deserializer::from_slice(stream);
+        let v = typed(ty, &mut d).ok()?;
+        d.end().ok()?;
+        Some(v)
+    }
+}
+
+/// how many bytes a bincode stream of this type occupies: fixed, or 8 + prefix
+fn plain_consumed_all_bincode(ty: u8, stream: &[u8]) -> bool {
+    if is_bytes_type(ty) {
+        if stream.len() < 8 {
+            return false;
+        }
+        let mut l = [0u8; 8];
+        l.copy_from_slice(&stream[..8]);
+        (u64::from_le_bytes(l) as u128) + 8 == stream.len() as u128
+    } else {
+        stream.len() == payload_len(ty)
+    }
+}
+
+pub fn real_apply(st: &Step) -> Out {
+    let mut o = Obs::new();
+    match st {
+        Step::Store { ty, v, fmt } => {
+            let val = match build(*ty, v) {
+                Some(x) => x,
+                None => return Out::Skip,
+            };
+            match store(&val, *fmt) {
+                Some(s) => {
+                    o.b("stream", &s);
+                }
+                None => {
+                    o.b("stream", b"<serialisation failed>");
+                }
+            }
+        }
+        Step::Load { ty, fmt, stream } => {
+            let v = typed_load(*ty, *fmt, &stream.0);
+            o.f("ok", v.is_some());
+            o.b("val", &v.map(|v| v.canon()).unwrap_or_default());
+        }
+        Step::SimFmt { ty, v, shape, len, extra, err_at, tk } => {
+            let n = (*len as usize).min(v.0.len());
+            let mut items: Vec<Item> = v.0[..n].iter().map(|b| Item::Byte(*b)).collect();
+            for i in 0..*extra {
+                items.push(if *tk == 1 { Item::Unparsable } else { Item::Byte(i as u8) });
+            }
+            let mut de = SimDe { shape: *shape, items, pos: 0, err_at: *err_at as usize, payload: v.0[..n].to_vec() };
+            let r = typed(*ty, &mut de);
+            let ok = match &r {
+                Ok(_) => de.finish().is_ok(),
+                Err(_) => false,
+            };
+            o.f("ok", ok);
+            o.b("val", &if ok { r.ok().unwrap().canon() } else { Vec::new() });
+        }
+        _ => return Out::Skip,
+    }
+    Out::Obs(o)
+}
+
+// ------------------------------------------------------------------ SimFormat: a fault-injecting Deserializer (STUB format)
+
+#[derive(Clone, Copy)]
+enum Item {
+    Byte(u8),
+    /// an element that is present but does not parse as the requested type (300, "x", ...)
+    Unparsable,
+}
+
+struct SimDe {
+    shape: u8,
+    items: Vec<Item>,
+    pos: usize,
+    err_at: usize,
+    payload: Vec<u8>,
+}
+
+#[derive(Debug)]
+struct SimErr(String);
+impl std::fmt::Display for SimErr {
+    fn fmt(&self, f: &mut std::fmt::Formatter<'_>) -> std::fmt::Result {
+        f.write_str(&self.0)
+    }
+}
+impl std::error::Error for SimErr {}
+impl de::Error for SimErr {
+    fn custom<T: std::fmt::Display>(msg: T) -> Self {
+        SimErr(msg.to_string())
+    }
+}
+
+impl SimDe {
+    /// the format's own end-of-value check, as serde_json's end_seq does: trailing elements are an error
+    fn finish(&self) -> Result<(), SimErr> {
+        if self.shape == 0 && self.pos < self.items.len() {
+            Err(SimErr("trailing elements".into()))
+        } else {
+            Ok(())
+        }
+    }
+    fn go<'de, V: Visitor<'de>>(&mut self, visitor: V) -> Result<V::Value, SimErr> {
+        match self.shape {
+            0 => visitor.visit_seq(SimSeq { de: self }),
+            1 | 3 => {
+                if self.err_at == 0 {
+                    return Err(SimErr("injected I/O error".into()));
+                }
+                let p = self.payload.clone();
+                visitor.visit_bytes(&p)
+            }
+            _ => {
+                if self.err_at == 0 {
+                    return Err(SimErr("injected I/O error".into()));
+                }
+                visitor.visit_byte_buf(self.payload.clone())
+            }
+        }
+    }
+}
+
+struct SimSeq<'a> {
+    de: &'a mut SimDe,
+}
+
+impl<'de, 'a> SeqAccess<'de> for SimSeq<'a> {
+    type Error = SimErr;
+    fn next_element_seed<T: DeserializeSeed<'de>>(&mut self, seed: T) -> Result<Option<T::Value>, SimErr> {
+        if self.de.pos == self.de.err_at {
+            self.de.pos += 1;
+            self.de.err_at = usize::MAX;
+            return Err(SimErr("injected I/O error".into()));
+        }
+        if self.de.pos >= self.de.items.len() {
+            return Ok(None);
+        }
+        let it = self.de.items[self.de.pos];
+        self.de.pos += 1;
+        match it {
+            Item::Byte(b) => seed.deserialize(ByteDe(b)).map(Some),
+            Item::Unparsable => Err(SimErr("invalid value: integer `300`, expected u8".into())),
+        }
+    }
+}
+
+struct ByteDe(u8);
+impl<'de> de::Deserializer<'de> for ByteDe {
+    type Error = SimErr;
+    fn deserialize_any<V: Visitor<'de>>(self, v: V) -> Result<V::Value, SimErr> {
+        v.visit_u8(self.0)
+    }
+    serde::forward_to_deserialize_any! {
+        bool i8 i16 i32 i64 i128 u8 u16 u32 u64 u128 f32 f64 char str string bytes byte_buf option unit
+        unit_struct newtype_struct seq tuple tuple_struct map struct enum identifier ignored_any
+    }
+}
+
+impl<'de, 'a> de::Deserializer<'de> for &'a mut SimDe {
+    type Error = SimErr;
+    fn deserialize_any<V: Visitor<'de>>(self, v: V) -> Result<V::Value, SimErr> {
+        self.go(v)
+    }
+    fn deserialize_newtype_struct<V: Visitor<'de>>(self, _name: &'static str, v: V) -> Result<V::Value, SimErr> {
+        v.visit_newtype_struct(self)
+    }
+    serde::forward_to_deserialize_any! {
+        bool i8 i16 i32 i64 i128 u8 u16 u32 u64 u128 f32 f64 char str string bytes byte_buf option unit
+        unit_struct seq tuple tuple_struct map struct enum identifier ignored_any
+    }
+}
+
+// ------------------------------------------------------------------ fault enumeration on the stored stream
+
+fn json_tokens(v: &[u8]) -> Vec<String> {
+    v.iter().map(|b| b.to_string()).collect()
+}
+
+fn json_of(tokens: &[String]) -> Vec<u8> {
+    format!("[{}]", tokens.join(",")).into_bytes()
+}
+
+/// Every fault the enumeration covers for one stored record, as concrete loads. Deterministic.
+pub fn expand(st: &Step, c: &mut Counters) -> Vec<Step> {
+    let (ty, v, fmt) = match st {
+        Step::Disk { ty, v, fmt } => (*ty, v, *fmt),
+        _ => return Vec::new(),
+    };
+    let mut out = Vec::new();
+    out.push(Step::Store { ty, v: v.clone(), fmt });
+    let clean = canonical_stream(ty, &v.0, fmt);
+    let mut push = |c: &mut Counters, kind: &str, s: Vec<u8>| {
+        bump(c, kind);
+        out.push(Step::Load { ty, fmt, stream: B(s) });
+    };
+    push(c, "enum:clean", clean.clone());
+    // truncation at every byte offset
+    for n in 0..clean.len() {
+        push(c, "enum:truncate", clean[..n].to_vec());
+    }
+    // every single-bit flip
+    for i in 0..clean.len() * 8 {
+        let mut s = clean.clone();
+        s[i / 8] ^= 1 << (i % 8);
+        push(c, "enum:bitflip", s);
+    }
+    // trailing garbage of 1..8 bytes, three fillings
+    for n in 1..=8usize {
+        for fill in [0u8, 0xff, b' ', b'7', b','] {
+            let mut s = clean.clone();
+            s.extend(std::iter::repeat(fill).take(n));
+            push(c, "enum:trailing_bytes", s);
+        }
+    }
+    // duplicated block (lost seek: the record written twice, and its first half repeated)
+    {
+        let mut s = clean.clone();
+        s.extend_from_slice(&clean);
+        push(c, "enum:duplicated_record", s);
+        let mut s = clean[..clean.len() / 2].to_vec();
+        s.extend_from_slice(&clean);
+        push(c, "enum:duplicated_block", s);
+    }
+    if fmt == 0 && is_bytes_type(ty) {
+        // length prefix says more / fewer bytes than present, with matching and non-matching payloads
+        for l in [0u64, 1, 31, 33, 64, 255, 1 << 20, u64::MAX] {
+            let mut s = l.to_le_bytes().to_vec();
+            s.extend_from_slice(&v.0);
+            push(c, "enum:length_prefix", s);
+            let mut s = l.to_le_bytes().to_vec();
+            let mut body = v.0.clone();
+            body.resize((l as usize).min(80), 0x5a);
+            s.extend_from_slice(&body);
+            push(c, "enum:length_prefix_consistent", s);
+        }
+    }
+    if fmt == 1 {
+        let toks = json_tokens(&v.0);
+        let n = toks.len();
+        // delete / duplicate each element
+        for k in 0..n {
+            let mut t = toks.clone();
+            t.remove(k);
+            push(c, "enum:json_delete_element", json_of(&t));
+            let mut t = toks.clone();
+            t.insert(k, toks[k].clone());
+            push(c, "enum:json_duplicate_element", json_of(&t));
+        }
+        // append one element of every kind: valid u8, out-of-range, negative, other JSON types
+        for extra in ["0", "7", "255", "256", "300", "-1", "1.5", "1e2", "\"x\"", "null", "true", "[]", "{}", "[1]", "99999999999999999999"] {
+            let mut t = toks.clone();
+            t.push(extra.to_string());
+            push(c, "enum:json_append_element", json_of(&t));
+            let mut t = toks.clone();
+            t.push(extra.to_string());
+            t.push("5".to_string());
+            push(c, "enum:json_append_two_elements", json_of(&t));
+            let mut t = toks.clone();
+            t.insert(0, extra.to_string());
+            push(c, "enum:json_prepend_element", json_of(&t));
+        }
+        // digit insertion into each element (value may leave the u8 range), element replaced by another type
+        for k in 0..n {
+            let mut t = toks.clone();
+            t[k] = format!("{}0", toks[k]);
+            push(c, "enum:json_digit_insertion", json_of(&t));
+            let mut t = toks.clone();
+            t[k] = format!("3{}", toks[k]);
+            push(c, "enum:json_digit_insertion", json_of(&t));
+            let mut t = toks.clone();
+            t[k] = format!("\"{}\"", toks[k]);
+            push(c, "enum:json_element_type_confusion", json_of(&t));
+            let mut t = toks.clone();
+            t[k] = "null".into();
+            push(c, "enum:json_element_type_confusion", json_of(&t));
+        }
+        // framing
+        let inner = String::from_utf8(json_of(&toks)).unwrap();
+        for s in [
+            format!("[{}]", inner),
+            format!("{} ", inner),
+            format!(" {}", inner),
+            format!("{}{}", inner, inner),
+            format!("{},1", inner),
+            format!("{{\"k\":{}}}", inner),
+            format!("\"{}\"", toks.join("")),
+            inner.replace(',', " , "),
+            inner.replace('[', "[ ").replace(']', " ]"),
+            inner.replace(']', ",]"),
+            "[]".to_string(),
+            "null".to_string(),
+            String::new(),
+        ] {
+            push(c, "enum:json_framing", s.into_bytes());
+        }
+    }
+    // SimFormat: the same record delivered at the serde data-model level
+    let want = payload_len(ty) as u16;
+    for shape in 0..4u8 {
+        for (len, extra, err_at, tk) in [
+            (want, 0u16, 65535u16, 0u8),
+            (want - 1, 0, 65535, 0),
+            (0, 0, 65535, 0),
+            (want, 1, 65535, 0),
+            (want, 1, 65535, 1),
+            (want, 2, 65535, 1),
+            (want, 3, 65535, 0),
+            (want, 0, 0, 0),
+            (want, 0, want / 2, 0),
+            (want, 0, want - 1, 0),
+            (want, 0, want, 0),
+            (want, 2, want, 0),
+            (want, 2, want + 1, 0),
+            (want, 1, want, 1),
+        ] {
+            bump(c, &format!("enum:simformat_shape{}", shape));
+            out.push(Step::SimFmt { ty, v: v.clone(), shape, len, extra, err_at, tk });
+        }
+    }
+    out
+}
